@@ -13,11 +13,13 @@ import (
 	"context"
 	"encoding/json"
 	"fmt"
+	"github.com/sourcenetwork/defradb/event"
 	"os"
 	"runtime/debug"
 	"sort"
 	"strconv"
 	"strings"
+	"time"
 
 	"github.com/ipfs/go-cid"
 	"github.com/sourcenetwork/immutable"
@@ -289,6 +291,14 @@ func (w *world) sync(src, dst int) string {
 			continue
 		}
 		for _, h := range heads {
+			if w.caseID%2 == 1 {
+				// through the node's own event loop, as a commit received from a peer is
+				if why := w.mergeThroughBus(dst, w.docs[l], h.Cid); why != "" {
+					errs = append(errs, l+":"+why)
+					w.out.Oracle(w.out.Lines, fmt.Sprintf("[merge-error] case %d: merging %s from node %d into node %d through the event bus: %s", w.caseID, l, src, dst, why))
+				}
+				continue
+			}
 			if err := w.nodes[dst].DB.VerifExecuteMerge(w.ctx, w.colID, w.docs[l], h.Cid); err != nil {
 				errs = append(errs, l+":"+strings.ReplaceAll(err.Error(), " ", "_"))
 				w.out.Oracle(w.out.Lines, fmt.Sprintf("[merge-error] case %d: merging %s from node %d into node %d fails: %v", w.caseID, l, src, dst, err))
@@ -299,6 +309,28 @@ func (w *world) sync(src, dst int) string {
 		return "error:" + strings.Join(errs, ";")
 	}
 	return "ok"
+}
+
+// mergeThroughBus publishes the merge request the network layer publishes for a received commit and waits for the
+// node to report the merge complete
+func (w *world) mergeThroughBus(dst int, docID string, c cid.Cid) string {
+	bus := w.nodes[dst].DB.Events()
+	done, err := bus.Subscribe(event.MergeCompleteName)
+	must(err)
+	defer bus.Unsubscribe(done)
+	bus.Publish(event.NewMessage(event.MergeName, event.Merge{DocID: docID, Cid: c, CollectionID: w.colID}))
+	deadline := time.After(10 * time.Second)
+	for {
+		select {
+		case m := <-done.Message():
+			if mc, ok := m.Data.(event.MergeComplete); ok && mc.Merge.Cid == c {
+				w.out.Count("merges-through-the-event-bus")
+				return ""
+			}
+		case <-deadline:
+			return "not_completed_within_10s"
+		}
+	}
 }
 
 func (w *world) agree() string {
@@ -578,6 +610,10 @@ func main() {
 		cases = append(cases, []string{"case 1", "node 0", `create 0 d0 {"name": "ali"}`, "patch 0 email String 1", `create 0 d1 {"name": "bob", "email": "bbb"}`,
 			"patch 0 nick String 1", `create 0 d2 {"name": "car", "email": "ccc", "nick": "caz"}`, "dump 0", "active 0 v2", "patch 0 phone String 1", "dump 0",
 			`update 0 d2 {"phone": "555"}`, "dump 0", "active 0 v3", "dump 0", "active 0 v4", "dump 0"})
+		// directed (delivered through the event bus, odd case id): a node that merged commits of the collection before it
+		// was patched receives a commit that writes the added field
+		cases = append(cases, []string{"case 1001", "node 0", "node 1", `create 0 d0 {"name": "ali"}`, "sync 0 1", "patch 0 email String 1", "patch 1 email String 1",
+			`update 0 d0 {"email": "eee"}`, "sync 0 1", "agree", "dump 1", "patch 0 nick String 1", `update 0 d0 {"nick": "nnn"}`, "patch 1 nick String 1", "sync 0 1", "agree"})
 		for i := 0; i < n; i++ {
 			cr, _ := r.Fork()
 			cases = append(cases, genCase(cr, uint64(i+2)))
